@@ -547,7 +547,7 @@ def features(steps):
     """shape of a (minimal) history: which ingredients it has (a small replay of the tree, add by add)"""
     kinds, f = {}, set()      # path -> 'f' | 'd' | 'p' | 'l' ; link targets under path+'@'
     adds, adddirs = [], set()
-    holding, renamed_away = False, set()
+    holding, renamed_away, rmdired = False, set(), set()
 
     def target(p):
         t = kinds.get(p + "@")
@@ -579,6 +579,8 @@ def features(steps):
             par = os.path.dirname(p) or "."
             if holding and p in renamed_away and w[1] in ("mkfifo", "symlink", "mkdir", "link"):
                 f.add("rename-then-recreate-in-burst")
+            if holding and p in rmdired and w[1] in ("mkfifo", "symlink", "mkdir", "link", "create"):
+                f.add("rmdir-then-recreate-in-burst")
             if w[1] == "mkfifo":
                 kinds.setdefault(p, "p")
                 entry(p)
@@ -607,6 +609,8 @@ def features(steps):
                         f.add("symlink-entry")
                 if holding and b in renamed_away:
                     f.add("rename-then-recreate-in-burst")
+                if holding and b in rmdired:
+                    f.add("rmdir-then-recreate-in-burst")
                 if holding:
                     renamed_away.add(a)
                 move(a, b)
@@ -615,7 +619,7 @@ def features(steps):
                 if kinds.get(p) == "l" and par in adddirs:
                     f.add("symlink-entry")
                 if holding and w[1] == "rmdir":
-                    renamed_away.add(p)      # a removed DIRECTORY is not re-scanned either (same block of readEvents)
+                    rmdired.add(p)           # a removed DIRECTORY is not re-scanned either (same block of readEvents)
                 kinds.pop(p, None)
                 kinds.pop(p + "@", None)
         elif w[0] == "api" and len(w) == 3:
@@ -649,6 +653,7 @@ def features(steps):
         elif w[0] == "release":
             holding = False
             renamed_away.clear()
+            rmdired.clear()
     if any(s == "api close" for s in steps):
         f.add("close")
     return sorted(f)
@@ -656,7 +661,7 @@ def features(steps):
 
 # the last two are the ingredients of defects repaired in /repo (c3f1f06): they only decide the key when nothing else does
 CAUSES = ["symlink-added", "fifo-entry", "dangling-symlink-entry", "symlink-entry",
-          "watched-dir-renamed", "watched-file-overwritten", "rename-then-recreate-in-burst", "entry-user-removed",
+          "watched-dir-renamed", "watched-file-overwritten", "rename-then-recreate-in-burst", "rmdir-then-recreate-in-burst", "entry-user-removed",
           "fifo-added", "unclean-spelling"]
 
 
@@ -809,7 +814,8 @@ WHAT = {
     "remove-of-unadded-succeeds": "Remove succeeds on a per-entry watch the user never added (documented: ErrNonExistentWatch) and silently stops the reporting for that entry",
     "entry-user-removed": "Remove of a user-added entry of a watched directory removes the one shared watch: the directory stops reporting that entry's changes and reports Create for it again",
     "reader-blocked:plain": "the reader goroutine blocks forever",
-    "rename-then-recreate-in-burst": "a name renamed away (or a removed directory's name) that is created again before the reader runs gets no Create until the directory changes again (only NOTE_DELETE of a non-directory triggers the re-scan of the name)",
+    "rename-then-recreate-in-burst": "a name renamed away and created again before the reader runs gets no Create until the directory changes again (only NOTE_DELETE, not NOTE_RENAME, triggers the re-scan of the name)",
+    "rmdir-then-recreate-in-burst": "a sub-directory of a watched directory removed and its name created again before the reader runs gets Remove but no Create until the directory changes again (the isDir branch of the Remove block in readEvents never re-checks the name)",
 }
 
 
